@@ -449,6 +449,20 @@ impl Condition for NumericCondition {
                     unreachable!("IN operation should not be used with NumericCondition")
                 }
             }
+        } else if let Some(f) = accessor.get_field_as_f64(&self.field) {
+            // a float cell: same comparison as evaluate_at on an f64 column
+            let rhs = self.value as f64;
+            match self.operation {
+                CompareOp::Gt => f > rhs,
+                CompareOp::Gte => f >= rhs,
+                CompareOp::Lt => f < rhs,
+                CompareOp::Lte => f <= rhs,
+                CompareOp::Eq => f == rhs,
+                CompareOp::Neq => f != rhs,
+                CompareOp::In => {
+                    unreachable!("IN operation should not be used with NumericCondition")
+                }
+            }
         } else {
             false
         }
